@@ -121,7 +121,8 @@ def _val(v):
     if isinstance(v, (int, str)) or v is None:
         return v
     if isinstance(v, float):
-        return {"float": v.hex()}
+        # integral floats are ordinary values of the Int-valued model (7.0 + 1 = 8.0)
+        return int(v) if v.is_integer() else {"float": v.hex()}
     if isinstance(v, tuple):
         return {"tuple": [_val(x) if not hasattr(x, "value") else snapshot(x) for x in v]}
     return {"obj": type(v).__name__}
